@@ -26,6 +26,22 @@
 //! `GrindingChallenger::check_witness` (bits==0 → true; observe; sample_bits == 0), which is
 //! also what the repository's tests use.
 //!
+//! ### Whole public call surface (not only the per-element methods)
+//! The alphabet drives EVERY public method of `CircuitChallenger` and of the trait it implements
+//! (`CALL_SURFACE` below is the inventory), because a method with a default implementation
+//! (`observe_slice`, `observe_ext_slice`, `sample_ext_vec`) can be overridden by the impl and then
+//! is its own code path: `observe_slice` / `observe_ext_slice` with 0, 1 and 2 elements (native:
+//! `CanObserve::observe_slice` / `FieldChallenger::observe_algebra_slice`, i.e. the per-element
+//! observes in order; the empty slice is a no-op), `sample_ext_vec(0|1|2)` (native: that many
+//! `sample_algebra_element`), `sample_bits(0)`, and the inherent `init` called explicitly (native:
+//! nothing). These actions are part of the three BFS alphabets (so each is taken from every
+//! reachable canonical state), and a dedicated un-de-duplicated "slice surface" pass enumerates
+//! all histories up to depth 3 (quick) / 4 (thorough) over {per-element core ∪ all slice
+//! actions}. The de-duplication argument below covers them unchanged: whatever an override does,
+//! it is code of the same object, whose control flow can depend only on the fields exposed by
+//! `verif_snapshot()` and on the builder branches named below; after every slice action the whole
+//! snapshot is compared with the native state like after any other action.
+//!
 //! ## Soundness of the de-duplication (canonical key)
 //! The key of a state is
 //!   (native |input_buffer|, native |output_buffer|, circuit |input_buffer|, |output_buffer|,
@@ -108,8 +124,63 @@ enum Src {
     Echo,
 }
 
+/// Argument of a slice-level observe call: 0, 1 or 2 targets, each a fresh public input (`P`) or
+/// a fresh tag constant (`C`).
+#[derive(Clone, Copy, PartialEq, Eq, Hash, Debug, PartialOrd, Ord)]
+enum Sl {
+    E,
+    P,
+    C,
+    PP,
+    CC,
+    PC,
+}
+impl Sl {
+    /// per element: is it a public input?
+    fn publics(&self) -> &'static [bool] {
+        match self {
+            Sl::E => &[],
+            Sl::P => &[true],
+            Sl::C => &[false],
+            Sl::PP => &[true, true],
+            Sl::CC => &[false, false],
+            Sl::PC => &[true, false],
+        }
+    }
+    fn suffix(&self) -> &'static str {
+        match self {
+            Sl::E => "0",
+            Sl::P => "p",
+            Sl::C => "c",
+            Sl::PP => "pp",
+            Sl::CC => "cc",
+            Sl::PC => "pc",
+        }
+    }
+    fn parse(s: &str) -> Option<Sl> {
+        Some(match s {
+            "0" => Sl::E,
+            "p" => Sl::P,
+            "c" => Sl::C,
+            "pp" => Sl::PP,
+            "cc" => Sl::CC,
+            "pc" => Sl::PC,
+            _ => return None,
+        })
+    }
+}
+
 #[derive(Clone, Copy, PartialEq, Eq, Hash, Debug, PartialOrd, Ord)]
 enum Act {
+    /// the inherent `CircuitChallenger::init` called explicitly (public; native meaning: nothing)
+    Init,
+    /// `RecursiveChallenger::observe_slice(&[..])`; native `CanObserve::observe_slice`
+    /// (= the per-element observes in order, empty = no-op)
+    ObsSlice(Sl),
+    /// `RecursiveChallenger::observe_ext_slice(&[..])`; native `observe_algebra_slice`
+    ObsExtSlice(Sl),
+    /// `RecursiveChallenger::sample_ext_vec(count)`; native = `count` × `sample_algebra_element`
+    SampleExtVec(u8),
     Obs(Src),
     /// observe an extension element: `Pub`/`Const` = D tag coefficients, `Small` = a small base
     /// constant embedded (what the repo's tests observe), `Echo` = the last sampled ext target
@@ -128,6 +199,10 @@ enum Act {
 impl Act {
     fn token(&self) -> String {
         match self {
+            Act::Init => "init".into(),
+            Act::ObsSlice(s) => format!("OS{}", s.suffix()),
+            Act::ObsExtSlice(s) => format!("XS{}", s.suffix()),
+            Act::SampleExtVec(n) => format!("SXV{n}"),
             Act::Obs(Src::Pub) => "op".into(),
             Act::Obs(Src::Const) => "oc".into(),
             Act::Obs(Src::Small) => "os".into(),
@@ -164,9 +239,16 @@ impl Act {
             "sx" => Act::SampleExt,
             "clr" => Act::Clear,
             "w0" => Act::Pow { bits: 0, public: false, want: 0 },
+            "init" => Act::Init,
             _ => {
                 let b = t.as_bytes();
-                if b.len() >= 2 && b[0] == b'b' {
+                if let Some(r) = t.strip_prefix("OS") {
+                    Act::ObsSlice(Sl::parse(r)?)
+                } else if let Some(r) = t.strip_prefix("XS") {
+                    Act::ObsExtSlice(Sl::parse(r)?)
+                } else if let Some(r) = t.strip_prefix("SXV") {
+                    Act::SampleExtVec(r.parse().ok()?)
+                } else if b.len() >= 2 && b[0] == b'b' {
                     Act::Bits(t[1..].parse().ok()?)
                 } else if b.len() == 3 && b[0] == b'w' {
                     Act::Pow { bits: t[1..2].parse().ok()?, public: b[2] == b'p', want: 0 }
@@ -207,6 +289,9 @@ enum Mode {
     Mixed,
     /// both kinds + value-dependent constants, NO de-duplication, bounded depth
     Undedup,
+    /// "slice surface": a per-element core ∪ every slice-level / vector-level / inherent public
+    /// method with arguments of length 0, 1, 2; NO de-duplication, bounded depth
+    Surface,
 }
 impl Mode {
     fn tag(&self) -> &'static str {
@@ -215,7 +300,11 @@ impl Mode {
             Mode::Constant => "constant",
             Mode::Mixed => "mixed",
             Mode::Undedup => "undedup",
+            Mode::Surface => "surface",
         }
+    }
+    fn dedup(&self) -> bool {
+        !matches!(self, Mode::Undedup | Mode::Surface)
     }
     /// simplest first
     fn alphabet(&self) -> Vec<Act> {
@@ -238,7 +327,43 @@ impl Mode {
                     pow(2, p, 1),
                     pow(2, p, 2),
                     Act::Clear,
+                    // ---- the rest of the public call surface (see `CALL_SURFACE`)
+                    Act::Init,
+                    Act::Bits(0),
+                    Act::ObsSlice(Sl::E),
+                    Act::ObsSlice(if p { Sl::P } else { Sl::C }),
+                    Act::ObsSlice(if p { Sl::PP } else { Sl::CC }),
+                    Act::ObsExtSlice(Sl::E),
+                    Act::ObsExtSlice(if p { Sl::P } else { Sl::C }),
+                    Act::ObsExtSlice(if p { Sl::PP } else { Sl::CC }),
+                    Act::SampleExtVec(0),
+                    Act::SampleExtVec(1),
+                    Act::SampleExtVec(2),
                 ]
+            }
+            Mode::Surface => {
+                let mut v = vec![
+                    // per-element core
+                    Act::Obs(Src::Pub),
+                    Act::Obs(Src::Const),
+                    Act::Sample,
+                    Act::ObsExt(Src::Pub),
+                    Act::SampleExt,
+                    Act::Bits(1),
+                    pow(1, true, 0),
+                    Act::Clear,
+                    // slice / vector / inherent surface
+                    Act::Init,
+                    Act::Bits(0),
+                ];
+                for sl in [Sl::E, Sl::P, Sl::C, Sl::PP, Sl::CC, Sl::PC] {
+                    v.push(Act::ObsSlice(sl));
+                }
+                for sl in [Sl::E, Sl::P, Sl::C, Sl::PP, Sl::CC, Sl::PC] {
+                    v.push(Act::ObsExtSlice(sl));
+                }
+                v.extend([Act::SampleExtVec(0), Act::SampleExtVec(1), Act::SampleExtVec(2)]);
+                v
             }
             Mode::Mixed | Mode::Undedup => {
                 let mut v = vec![Act::Obs(Src::Pub), Act::Obs(Src::Const)];
@@ -267,6 +392,18 @@ impl Mode {
                     pow(2, false, 1),
                     Act::Clear,
                 ]);
+                if *self == Mode::Mixed {
+                    // the rest of the public call surface; homogeneous two-element slices are in
+                    // the pure-public / pure-constant runs, the mixed pair is here
+                    v.extend([Act::Init, Act::Bits(0)]);
+                    for sl in [Sl::E, Sl::P, Sl::C, Sl::PC] {
+                        v.push(Act::ObsSlice(sl));
+                    }
+                    for sl in [Sl::E, Sl::P, Sl::C, Sl::PC] {
+                        v.push(Act::ObsExtSlice(sl));
+                    }
+                    v.extend([Act::SampleExtVec(0), Act::SampleExtVec(1), Act::SampleExtVec(2)]);
+                }
                 v
             }
         }
@@ -319,6 +456,11 @@ enum Step<BF, EF> {
     Bits { n: usize, exp: usize },
     Pow { bits: usize, w: BF, public: bool, ok: bool },
     Clear,
+    Init,
+    /// (value, is a public input) per element
+    ObsSlice { vs: Vec<(BF, bool)> },
+    ObsExtSlice { vs: Vec<(EF, bool)> },
+    SampleExtVec { exps: Vec<EF> },
 }
 
 type Snap = (Vec<ExprId>, Vec<ExprId>, Vec<ExprId>, bool, bool);
@@ -455,6 +597,42 @@ where
                         Step::Pow { bits, w, public, ok }
                     }
                 }
+                Act::Init => Step::Init, // native: nothing to do
+                Act::ObsSlice(sl) => {
+                    let vs: Vec<(BF, bool)> = sl
+                        .publics()
+                        .iter()
+                        .enumerate()
+                        .map(|(e, p)| (tag_value::<BF>(seed, k, 6 * e), *p))
+                        .collect();
+                    // the native slice-level method itself (empty slice = no-op)
+                    let raw: Vec<BF> = vs.iter().map(|(v, _)| *v).collect();
+                    nat.observe_slice(&raw);
+                    Step::ObsSlice { vs }
+                }
+                Act::ObsExtSlice(sl) => {
+                    let vs: Vec<(EF, bool)> = sl
+                        .publics()
+                        .iter()
+                        .enumerate()
+                        .map(|(e, p)| {
+                            (EF::from_basis_coefficients_fn(|j| tag_value::<BF>(seed, k, 6 * e + j + 1)), *p)
+                        })
+                        .collect();
+                    let raw: Vec<EF> = vs.iter().map(|(v, _)| *v).collect();
+                    nat.observe_algebra_slice(&raw);
+                    Step::ObsExtSlice { vs }
+                }
+                Act::SampleExtVec(n) => {
+                    let exps: Vec<EF> = (0..n).map(|_| nat.sample_algebra_element()).collect();
+                    for exp in &exps {
+                        last_ext = Some(*exp);
+                        for c in exp.as_basis_coefficients_slice() {
+                            res.sampled.push(c.as_canonical_u64());
+                        }
+                    }
+                    Step::SampleExtVec { exps }
+                }
                 Act::Clear => {
                     // no native `clear`: the repo's own test equates it with a fresh challenger
                     nat = DuplexChallenger::<BF, P, W, R>::new(perm.clone());
@@ -548,6 +726,41 @@ where
                             .map_err(|e| format!("build: check_pow_witness({bits}): {e:?}"))?;
                     }
                     Step::Clear => RecursiveChallenger::<BF, EF>::clear(&mut cc, &mut b),
+                    Step::Init => cc.init::<BF, EF>(&mut b),
+                    Step::ObsSlice { vs } => {
+                        let ts: Vec<ExprId> = vs
+                            .iter()
+                            .map(|(v, p)| {
+                                if *p {
+                                    pubs.push(emb(*v));
+                                    b.public_input()
+                                } else {
+                                    b.define_const(emb(*v))
+                                }
+                            })
+                            .collect();
+                        RecursiveChallenger::<BF, EF>::observe_slice(&mut cc, &mut b, &ts);
+                    }
+                    Step::ObsExtSlice { vs } => {
+                        let ts: Vec<ExprId> = vs
+                            .iter()
+                            .map(|(v, p)| {
+                                if *p {
+                                    pubs.push(*v);
+                                    b.public_input()
+                                } else {
+                                    b.define_const(*v)
+                                }
+                            })
+                            .collect();
+                        RecursiveChallenger::<BF, EF>::observe_ext_slice(&mut cc, &mut b, &ts);
+                    }
+                    Step::SampleExtVec { exps } => {
+                        got = RecursiveChallenger::<BF, EF>::sample_ext_vec(&mut cc, &mut b, exps.len());
+                        if let Some(t) = got.last() {
+                            last_ext_target = Some(*t);
+                        }
+                    }
                 }
                 sampled.push(got);
                 snaps.push(cc.verif_snapshot());
@@ -633,6 +846,25 @@ where
                                 "sampled_value",
                                 format!("step {k}: native {} circuit {}", show_ef(exp), show_ef(&v)),
                             ));
+                        }
+                    }
+                }
+                Step::SampleExtVec { exps } => {
+                    if out.sampled[k].len() != exps.len() {
+                        viols.push((
+                            "sampled_value",
+                            format!("step {k}: {} targets for sample_ext_vec({})", out.sampled[k].len(), exps.len()),
+                        ));
+                    }
+                    for (i, (t, exp)) in out.sampled[k].iter().zip(exps.iter()).enumerate() {
+                        if let Some(v) = val(*t) {
+                            sample_txt.push(format!("sxv[{i}]@{k}={}", show_ef(exp)));
+                            if v != *exp {
+                                viols.push((
+                                    "sampled_value",
+                                    format!("step {k}: element {i} native {} circuit {}", show_ef(exp), show_ef(&v)),
+                                ));
+                            }
                         }
                     }
                 }
@@ -1047,13 +1279,14 @@ fn bfs(ctx: &Ctx, cfg: &dyn DynCfg, rc: bool, mode: Mode, sh: &Shared) -> JobSta
     st
 }
 
-/// Every history of length 1..=depth over the un-de-duplicated alphabet, each as its own circuit.
-fn undedup(ctx: &Ctx, cfg: &dyn DynCfg, rc: bool, depth: usize, sh: &Shared) -> JobStat {
+/// Every history of length 1..=depth over the alphabet of `mode` (`Undedup` or `Surface`), each
+/// as its own circuit, no de-duplication.
+fn undedup(ctx: &Ctx, cfg: &dyn DynCfg, rc: bool, mode: Mode, depth: usize, sh: &Shared) -> JobStat {
     let t0 = Instant::now();
-    let alphabet = Mode::Undedup.alphabet();
+    let alphabet = mode.alphabet();
     let name = cfg.name();
     let mut st = JobStat {
-        cfg: name, rc, mode: Mode::Undedup, states: 1, transitions: 0, terminal_transitions: 0,
+        cfg: name, rc, mode, states: 1, transitions: 0, terminal_transitions: 0,
         levels: 0, longest_history: 0, complete: false, wall_s: 0.0,
     };
     let mut level: Vec<Vec<Act>> = vec![vec![]];
@@ -1094,11 +1327,18 @@ fn undedup(ctx: &Ctx, cfg: &dyn DynCfg, rc: bool, depth: usize, sh: &Shared) -> 
         }
         st.levels += 1;
         st.longest_history = dpt;
-        if dpt == 2 {
-            let mut g = sh.samples.lock().unwrap();
-            if let Some(r) = results.iter().flatten().find(|r| r.sampled.len() >= 2) {
-                g.push(format!("{name}/rc={}/undedup: {}", rc as u8, r.summary));
-            }
+        // one written-out case per pass; for the surface pass one that goes through slice-level
+        // calls (an empty observe_slice between two samples, then a vector sample)
+        let pick: Option<&CaseResult> = if mode == Mode::Surface {
+            let want = [Act::Sample, Act::ObsSlice(Sl::E), Act::SampleExtVec(2)];
+            (dpt == 3)
+                .then(|| hs.iter().position(|h| h[..] == want).and_then(|i| results[i].as_ref()))
+                .flatten()
+        } else {
+            (dpt == 2).then(|| results.iter().flatten().find(|r| r.sampled.len() >= 2)).flatten()
+        };
+        if let Some(r) = pick {
+            sh.samples.lock().unwrap().push(format!("{name}/rc={}/{}: {}", rc as u8, mode.tag(), r.summary));
         }
         level = hs
             .into_iter()
@@ -1148,6 +1388,53 @@ fn minimise(cfg: &dyn DynCfg, rc: bool, clause: &str, hist: &[Act], seed: u64) -
     (cur, detail)
 }
 
+/// Inventory of the public call surface of the in-circuit challenger
+/// (`recursion/src/challenger/circuit.rs`, `recursion/src/traits/challenger.rs`) and the action(s)
+/// that drive each method. Methods with a default implementation are listed because an
+/// implementation may override them.
+const CALL_SURFACE: &[&str] = &[
+    "CircuitChallenger::new / new_babybear / new_babybear_base / new_koalabear / new_koalabear_base / new_goldilocks / new_babybear_poseidon1_base / new_koalabear_poseidon1_base / new_goldilocks_poseidon1: the configurations",
+    "CircuitChallenger::init (inherent, pub): init",
+    "RecursiveChallenger::observe: op oc os oz",
+    "RecursiveChallenger::observe_slice (default impl): OS0 OSp OSc OSpp OScc OSpc",
+    "RecursiveChallenger::sample: s",
+    "RecursiveChallenger::observe_ext: xp xc xs xe",
+    "RecursiveChallenger::observe_ext_slice (default impl): XS0 XSp XSc XSpp XScc XSpc",
+    "RecursiveChallenger::sample_ext: sx",
+    "RecursiveChallenger::sample_ext_vec (default impl): SXV0 SXV1 SXV2",
+    "RecursiveChallenger::sample_bits: b0 b1 b3",
+    "RecursiveChallenger::check_pow_witness: w0 wNp wNc WNpK WNcK",
+    "RecursiveChallenger::clear: clr",
+];
+
+/// Which alphabet × depth was fully enumerated, per mode (min over the runs of that mode).
+fn fully_enumerated(stats: &[JobStat]) -> Value {
+    let mut out = vec![];
+    for m in [Mode::Public, Mode::Constant, Mode::Mixed, Mode::Undedup, Mode::Surface] {
+        let runs: Vec<&JobStat> = stats.iter().filter(|s| s.mode == m).collect();
+        if runs.is_empty() {
+            continue;
+        }
+        let complete = runs.iter().filter(|s| s.complete).count();
+        let depth = if m.dedup() {
+            format!(
+                "fixpoint of the canonical-key BFS in {complete}/{} runs (every action of the alphabet from every reachable canonical state; longest shortest-history {})",
+                runs.len(),
+                runs.iter().map(|s| s.longest_history).max().unwrap_or(0)
+            )
+        } else {
+            format!(
+                "all histories of length <= d, d = {}..{} depending on the configuration ({complete}/{} runs complete)",
+                runs.iter().map(|s| s.longest_history).min().unwrap_or(0),
+                runs.iter().map(|s| s.longest_history).max().unwrap_or(0),
+                runs.len()
+            )
+        };
+        out.push(json!({"alphabet": m.tag(), "actions": m.alphabet().len(), "runs": runs.len(), "enumerated": depth}));
+    }
+    Value::Array(out)
+}
+
 struct Plan {
     cfg: usize,
     rc: bool,
@@ -1155,6 +1442,8 @@ struct Plan {
     modes: Vec<Mode>,
     /// depth of the un-de-duplicated pass (0 = none)
     undedup_depth: usize,
+    /// depth of the un-de-duplicated "slice surface" pass (0 = none)
+    surface_depth: usize,
 }
 
 fn main() {
@@ -1219,13 +1508,13 @@ fn main() {
         .enumerate()
         .map(|(i, (n, rc))| (n, rc, i < 7))
         {
-            plans.push(Plan { cfg: by_name(n).unwrap(), rc, modes: all_modes.clone(), undedup_depth: if deep { 4 } else { 3 } });
+            plans.push(Plan { cfg: by_name(n).unwrap(), rc, modes: all_modes.clone(), undedup_depth: if deep { 4 } else { 3 }, surface_depth: 3 });
         }
     } else {
         for (i, c) in cfgs.iter().enumerate() {
             for rc in [true, false] {
                 let deep = rc && matches!(c.name(), "bb-d4-p2" | "kb-d1-p2" | "gl-d2-p1");
-                plans.push(Plan { cfg: i, rc, modes: all_modes.clone(), undedup_depth: if deep { 5 } else { 4 } });
+                plans.push(Plan { cfg: i, rc, modes: all_modes.clone(), undedup_depth: if deep { 5 } else { 4 }, surface_depth: 4 });
             }
         }
     }
@@ -1237,30 +1526,44 @@ fn main() {
             p.undedup_depth = dv;
         }
     }
-
-    // jobs: (plan index, Some(mode) | None = undedup). Biggest first; all run on one rayon pool.
-    let mut jobs: Vec<(usize, Option<Mode>)> = vec![];
-    let mut by_depth: Vec<usize> = (0..plans.len()).filter(|i| plans[*i].undedup_depth > 0).collect();
-    by_depth.sort_by_key(|i| std::cmp::Reverse(plans[*i].undedup_depth));
-    for pi in by_depth {
-        jobs.push((pi, None));
+    if let Some(dv) = ctx.opt("surface-depth").and_then(|s| s.parse::<usize>().ok()) {
+        for p in &mut plans {
+            p.surface_depth = dv;
+        }
     }
+
+    // jobs: (plan index, mode, depth; depth 0 = BFS to a fixpoint). Biggest first; all run on one
+    // rayon pool.
+    let mut jobs: Vec<(usize, Mode, usize)> = vec![];
+    let mut flat: Vec<(usize, Mode, usize)> = vec![];
+    for (pi, p) in plans.iter().enumerate() {
+        if p.undedup_depth > 0 {
+            flat.push((pi, Mode::Undedup, p.undedup_depth));
+        }
+        if p.surface_depth > 0 {
+            flat.push((pi, Mode::Surface, p.surface_depth));
+        }
+    }
+    // estimated size = |alphabet|^depth
+    flat.sort_by_key(|(_, m, d)| std::cmp::Reverse((m.alphabet().len() as u64).pow(*d as u32)));
+    jobs.extend(flat);
     for (pi, p) in plans.iter().enumerate() {
         for m in [Mode::Mixed, Mode::Public, Mode::Constant] {
             if p.modes.contains(&m) {
-                jobs.push((pi, Some(m)));
+                jobs.push((pi, m, 0));
             }
         }
     }
     let sh = Shared::default();
     let stats: Vec<JobStat> = jobs
         .par_iter()
-        .map(|(pi, m)| {
+        .map(|(pi, m, depth)| {
             let p = &plans[*pi];
             let cfg = cfgs[p.cfg].as_ref();
-            match m {
-                Some(m) => bfs(&ctx, cfg, p.rc, *m, &sh),
-                None => undedup(&ctx, cfg, p.rc, p.undedup_depth, &sh),
+            if m.dedup() {
+                bfs(&ctx, cfg, p.rc, *m, &sh)
+            } else {
+                undedup(&ctx, cfg, p.rc, *m, *depth, &sh)
             }
         })
         .collect();
@@ -1292,18 +1595,20 @@ fn main() {
     }
 
     // ------------------------------------------------------------------ evidence
-    let bfs_stats: Vec<&JobStat> = stats.iter().filter(|s| s.mode != Mode::Undedup).collect();
+    let bfs_stats: Vec<&JobStat> = stats.iter().filter(|s| s.mode.dedup()).collect();
     let und_stats: Vec<&JobStat> = stats.iter().filter(|s| s.mode == Mode::Undedup).collect();
+    let sur_stats: Vec<&JobStat> = stats.iter().filter(|s| s.mode == Mode::Surface).collect();
     let states: u64 = stats.iter().map(|s| s.states).sum();
     let transitions: u64 = stats.iter().map(|s| s.transitions).sum();
     let exhaustive = stats.iter().all(|s| s.complete) && !sh.truncated.load(Ordering::Relaxed);
     let distinct = sh.distinct_samples.lock().unwrap().len();
     println!(
-        "C05: {} configurations×recompose, {} BFS runs (fixpoint reached in {}), {} un-de-duplicated passes",
+        "C05: {} configurations×recompose, {} BFS runs (fixpoint reached in {}), {} un-de-duplicated passes, {} slice-surface passes",
         plans.len(),
         bfs_stats.len(),
         bfs_stats.iter().filter(|s| s.complete).count(),
-        und_stats.len()
+        und_stats.len(),
+        sur_stats.len()
     );
     for s in &stats {
         println!(
@@ -1326,19 +1631,23 @@ fn main() {
         "states": states,
         "bfs_canonical_states": bfs_stats.iter().map(|s| s.states).sum::<u64>(),
         "undedup_histories": und_stats.iter().map(|s| s.states).sum::<u64>(),
+        "surface_histories": sur_stats.iter().map(|s| s.states).sum::<u64>(),
+        "call_surface": CALL_SURFACE,
+        "fully_enumerated": fully_enumerated(&stats),
         "transitions": transitions,
         "traces_validated_against_impl": transitions,
         "samples": samples,
         "exhaustive": exhaustive,
-        "bound": "BFS to a fixpoint on the canonical key per (configuration, recompose, mode); plus every history up to the stated depth without de-duplication",
+        "bound": "BFS to a fixpoint on the canonical key per (configuration, recompose, mode) over the alphabets public / constant / mixed, which contain every public method of the in-circuit challenger (per-element, slice-level with 0/1/2 elements, sample_ext_vec(0/1/2), explicit init); plus every history up to the stated depth without de-duplication over the alphabets undedup (per-element + value-dependent constants) and surface (per-element core + all slice-level actions)",
         "alphabet": {
             "public": Mode::Public.alphabet().iter().map(|a| a.token()).collect::<Vec<_>>(),
             "constant": Mode::Constant.alphabet().iter().map(|a| a.token()).collect::<Vec<_>>(),
             "mixed": Mode::Mixed.alphabet().iter().map(|a| a.token()).collect::<Vec<_>>(),
             "undedup": Mode::Undedup.alphabet().iter().map(|a| a.token()).collect::<Vec<_>>(),
-            "legend": "op/oc/os/oz observe public|const tag|const small(=length-tag values)|const 0; xp/xc observe_ext; s sample; sx sample_ext; bN sample_bits(N); wNp/wNc check_pow_witness(N bits, natively ground witness, public|const); WNpK/WNcK witness for which the native sample_bits(N) is K≠0, i.e. rejected natively (terminal); clr clear",
+            "surface": Mode::Surface.alphabet().iter().map(|a| a.token()).collect::<Vec<_>>(),
+            "legend": "op/oc/os/oz observe public|const tag|const small(=length-tag values)|const 0; xp/xc observe_ext; s sample; sx sample_ext; bN sample_bits(N); wNp/wNc check_pow_witness(N bits, natively ground witness, public|const); WNpK/WNcK witness for which the native sample_bits(N) is K≠0, i.e. rejected natively (terminal); clr clear; init the inherent CircuitChallenger::init called explicitly (native: nothing); OS<args> observe_slice and XS<args> observe_ext_slice with args 0 = empty slice, p|c = one public|constant element, pp|cc|pc = two elements (native: CanObserve::observe_slice / observe_algebra_slice, i.e. the per-element observes in order, empty = no-op); SXVn sample_ext_vec(n), n = 0|1|2 (native: n × sample_algebra_element)",
         },
-        "configurations": plans.iter().map(|p| json!({"config": cfgs[p.cfg].describe(), "recompose_table": p.rc, "undedup_depth": p.undedup_depth})).collect::<Vec<_>>(),
+        "configurations": plans.iter().map(|p| json!({"config": cfgs[p.cfg].describe(), "recompose_table": p.rc, "undedup_depth": p.undedup_depth, "surface_depth": p.surface_depth})).collect::<Vec<_>>(),
         "runs": stats.iter().map(|s| s.to_json()).collect::<Vec<_>>(),
         "cases_executed": sh.cases.load(Ordering::Relaxed),
         "values_compared": sh.values_compared.load(Ordering::Relaxed),
